@@ -514,6 +514,8 @@ func (fr *Frame) goStmt(x *ssa.Go, st *State, reach string) {
 	// the spawned call runs concurrently: its precondition is checked here, its effects on
 	// the spawner's view are not modelled (ownership / channel assumptions, DESIGN §5.3).
 	cc := x.Common()
+	// calls(goK): how often the K-th go statement (in source order) of this function has been executed
+	fr.countCall(fmt.Sprintf("go%d", fr.goOrdinal(x)), st)
 	if callee, ok := cc.Value.(*ssa.Function); ok {
 		if ct := c.eng.contractOf(callee); ct != nil {
 			var args []Val
@@ -662,7 +664,31 @@ func (c *FnCtx) chanRecv(fr *Frame, st *State, reach string, cht types.Type, ch 
 		cur = c.ghostInit(g)
 	}
 	st.ghost[g] = c.smt.define("received", "(Array Int Int)", sto(cur, ch, app("+", sel(cur, ch), "1")))
-	return fr.havocVal(et, "recv")
+	v := fr.havocVal(et, "recv")
+	c.noteLastRecv(st, ch, et, v)
+	return v
+}
+
+// noteRecv: ghost bookkeeping of a receive (count and last value), used for select cases.
+func (c *FnCtx) noteRecv(st *State, ch string, et types.Type, v Val) {
+	g := "received"
+	c.ghostSorts[g] = "(Array Int Int)"
+	cur, ok := st.ghost[g]
+	if !ok {
+		cur = c.ghostInit(g)
+	}
+	st.ghost[g] = c.smt.define("received", "(Array Int Int)", sto(cur, ch, app("+", sel(cur, ch), "1")))
+	c.noteLastRecv(st, ch, et, v)
+}
+
+func (c *FnCtx) noteLastRecv(st *State, ch string, et types.Type, v Val) {
+	lg := "lastreceived." + sortTag(c.sortOf(et))
+	c.ghostSorts[lg] = "(Array Int " + c.sortOf(et) + ")"
+	lcur, ok := st.ghost[lg]
+	if !ok {
+		lcur = c.ghostInit(lg)
+	}
+	st.ghost[lg] = c.smt.define("lastreceived", c.ghostSorts[lg], sto(lcur, ch, c.termOf(v)))
 }
 
 func (fr *Frame) selectStmt(x *ssa.Select, st *State, reach string) Val {
@@ -682,8 +708,14 @@ func (fr *Frame) selectStmt(x *ssa.Select, st *State, reach string) Val {
 		// a nil channel never becomes ready
 		c.smt.assume(implies(eq(idx, fmt.Sprint(i)), not(eq(ch, "0"))), "select: nil channel case is disabled")
 		if s.Dir == types.RecvOnly {
-			vals = append(vals, fr.havocVal(tup.At(k).Type(), "selrecv"))
+			rv := fr.havocVal(tup.At(k).Type(), "selrecv")
+			vals = append(vals, rv)
 			k++
+			// when this case is taken: one more value received on ch, and it is the last one received there
+			after := st.clone()
+			c.noteRecv(after, ch, tup.At(k-1).Type(), rv)
+			m := c.mergeStates([]incoming{{eq(idx, fmt.Sprint(i)), after}, {not(eq(idx, fmt.Sprint(i))), st}})
+			*st = *m
 		} else {
 			// send case: counted when taken
 			v := fr.val(s.Send, st)
@@ -1008,4 +1040,16 @@ func (fr *Frame) countCall(name string, st *State) {
 	}
 	id := fmt.Sprint(callNameID(name))
 	st.ghost[g] = c.smt.define("calls", "(Array Int Int)", sto(cur, id, app("+", sel(cur, id), "1")))
+}
+
+func (fr *Frame) goOrdinal(x *ssa.Go) int {
+	k := 1
+	for _, b := range fr.fn.Blocks {
+		for _, in := range b.Instrs {
+			if g, ok := in.(*ssa.Go); ok && g != x && g.Pos() < x.Pos() {
+				k++
+			}
+		}
+	}
+	return k
 }
